@@ -556,6 +556,16 @@ func (env *Env) call(x *ECall) (CVal, error) {
 		case isSlc(a.T.Sort):
 			return CVal{Term{"(slen " + a.T.S + ")", SInt}, types.Typ[types.Int]}, nil
 		}
+		if a.GoT != nil {
+			if mt, ok := a.GoT.Underlying().(*types.Map); ok {
+				// number of keys: the same uninterpreted cardinality the builtin len uses
+				dn, _, ks, _ := fc.mapArrs(mt, regOrDefault(fc.e, a))
+				dom := fc.heapGet(env.state(), dn, arr(SInt, arr(ks, SBool)))
+				fname := "card$" + sanitize(ks)
+				fc.declareFun(fname, []string{arr(ks, SBool)}, SInt)
+				return CVal{Term{"(" + fname + " " + sel(dom.S, a.T.S) + ")", SInt}, types.Typ[types.Int]}, nil
+			}
+		}
 		return CVal{}, fmt.Errorf("len of sort %s", a.T.Sort)
 	case "ite":
 		args, err := evalArgs()
@@ -827,8 +837,23 @@ func (env *Env) call(x *ECall) (CVal, error) {
 		if t, ok := fc.fmtPadded(v.T, verb, spec); ok {
 			return CVal{t, types.Typ[types.String]}, nil
 		}
+		if verb == 'v' && spec == "" {
+			// the same dispatch on the dynamic type as the model of fmt.Sprintf("%v", <interface value>)
+			if t, ok := fc.fmtTyped(v.T, types.NewInterfaceType(nil, nil), verb, spec); ok {
+				return CVal{t, types.Typ[types.String]}, nil
+			}
+		}
 		return CVal{fc.fmtArg(v.T, verb, spec), types.Typ[types.String]}, nil
-	case "smt": // smt("raw term", Sort)
+	case "bufstr": // bufstr(b): the content of the *bytes.Buffer b
+		args, err := evalArgs()
+		if err != nil {
+			return CVal{}, err
+		}
+		if len(args) != 1 || args[0].T.Sort != SInt {
+			return CVal{}, fmt.Errorf("bufstr(b) needs a *bytes.Buffer")
+		}
+		a := fc.heapGet(env.state(), "BUF", arr(SInt, SString))
+		return CVal{Term{sel(a.S, args[0].T.S), SString}, types.Typ[types.String]}, nil
 	}
 	switch x.Fn {
 	case "startsWithSpace", "endsWithSpace":
@@ -927,6 +952,7 @@ var smtBuiltins = map[string]smtB{
 	"varintBytes": {"varint$bytes", SString, []string{SInt}},
 	"le64Bytes":   {"le64$bytes", SString, []string{SInt}},
 	"f64bits":     {"f64$bits", SInt, []string{SF64}},
+	"f64add":      {"f64$add", SF64, []string{SF64, SF64}},
 	"wrap64":      {"wrap64", SInt, []string{SInt}},
 }
 
@@ -1205,6 +1231,32 @@ func (fc *FnCtx) modExprArrays(e Expr, ct *FuncContract) []string {
 		out = append(out, l.arr)
 	}
 	return out
+}
+
+// resolveHeapNames: heap(contents:Type.field) names the domain and value arrays of the region of the
+// maps stored in that field; every other form names one array.
+func (fc *FnCtx) resolveHeapNames(n, pkg string) []string {
+	if strings.HasPrefix(n, "contents:") {
+		n = strings.TrimPrefix(n, "contents:")
+		if i := strings.LastIndex(n, "."); i > 0 {
+			t, _, err := fc.e.resolveType(n[:i], pkg)
+			if err == nil && t != nil {
+				if st, ok := t.Underlying().(*types.Struct); ok {
+					for k := 0; k < st.NumFields(); k++ {
+						if f := st.Field(k); f.Name() == n[i+1:] {
+							if mt, ok := f.Type().Underlying().(*types.Map); ok {
+								dn, vn, _, _ := fc.mapArrs(mt, fc.e.regionOfField(t, f))
+								return []string{dn, vn}
+							}
+						}
+					}
+				}
+			}
+		}
+		fc.unsupported("heap(contents:%s): no such map field", n)
+		return nil
+	}
+	return []string{fc.resolveHeapName(n, pkg)}
 }
 
 func (fc *FnCtx) resolveHeapName(n, pkg string) string {
